@@ -287,4 +287,99 @@ example : decodeFields 1 3 (encodeFields 1 [[7, 7], [], [52, 50]]) = some [[7, 7
     simp only [List.mem_cons, List.not_mem_nil, or_false] at hb
     rcases hb with rfl | rfl | rfl <;> simp)
 
+/-! ## stored records: structs with length-delimited and varint fields (Validator, ValidatorSigningInfo, time) -/
+
+/-- the struct encoder has a left inverse directed by the struct's shape: up to fifteen fields, bytes fields below 2^64
+bytes, varints below 2^64; absent and zero are the same content -/
+theorem struct_roundtrip (num : Nat) (fs : List Fld) (h : num + fs.length ≤ 16) (hok : ∀ f ∈ fs, Fld.ok f) :
+    decodeStruct num (fs.map Fld.kind) (encodeStruct num fs) = some fs :=
+  decodeStruct_encodeStruct num fs h hok
+
+/-- two values of one struct type with the same encoding have the same fields -/
+theorem encodeStruct_injective (num : Nat) (fs gs : List Fld) (hk : fs.map Fld.kind = gs.map Fld.kind) (h : num + fs.length ≤ 16)
+    (hf : ∀ f ∈ fs, Fld.ok f) (hg : ∀ f ∈ gs, Fld.ok f) (e : encodeStruct num fs = encodeStruct num gs) : fs = gs := by
+  have hlen : fs.length = gs.length := by simpa using congrArg List.length hk
+  have h1 := decodeStruct_encodeStruct num fs h hf
+  have h2 := decodeStruct_encodeStruct num gs (by omega) hg
+  rw [e, hk, h2] at h1
+  exact (Option.some.inj h1).symm
+
+/-- amino's time: different instants (int64 seconds, nanoseconds) have different encodings -/
+theorem encodeTime_injective (s1 s2 : Int) (n1 n2 : Nat)
+    (h1 : -(2 : Int) ^ 63 ≤ s1 ∧ s1 < (2 : Int) ^ 63 ∧ n1 < 2 ^ 64) (h2 : -(2 : Int) ^ 63 ≤ s2 ∧ s2 < (2 : Int) ^ 63 ∧ n2 < 2 ^ 64)
+    (e : encodeTime s1 n1 = encodeTime s2 n2) : s1 = s2 ∧ n1 = n2 := by
+  unfold encodeTime at e
+  have := encodeStruct_injective 1 [.uint (toU64 s1), .uint n1] [.uint (toU64 s2), .uint n2] rfl (by simp)
+    (by intro f hf; simp only [List.mem_cons, List.not_mem_nil, or_false] at hf
+        rcases hf with rfl | rfl
+        · exact toU64_lt s1
+        · exact h1.2.2)
+    (by intro f hf; simp only [List.mem_cons, List.not_mem_nil, or_false] at hf
+        rcases hf with rfl | rfl
+        · exact toU64_lt s2
+        · exact h2.2.2) e
+  simp only [List.cons.injEq, Fld.uint.injEq, and_true] at this
+  refine ⟨?_, this.2⟩
+  have a := ofU64_toU64 s1 h1.1 h1.2.1
+  have b := ofU64_toU64 s2 h2.1 h2.2.1
+  rw [this.1] at a; rw [a] at b; exact b
+
+theorem encodeTime_length_le (s : Int) (n : Nat) (hn : n < 2 ^ 64) : (encodeTime s n).length ≤ 22 := by
+  have a := uvarint_length_le_ten (toU64 s) (toU64_lt s)
+  have b := uvarint_length_le_ten n hn
+  unfold encodeTime
+  simp only [encodeStruct, encodeFld, fieldKey0_small 1 (by omega), fieldKey0_small 2 (by omega)]
+  split <;> split <;> simp <;> omega
+
+/-- the range of a validator record: what `sdk.Int`, `int64` seconds and byte slices can hold -/
+def VInRange (v : ValidatorRec) : Prop :=
+  v.addr.length < 2 ^ 64 ∧ v.pk.length < 2 ^ 64 ∧ v.status < 2 ^ 64 ∧ v.tokens.natAbs < 2 ^ 255 ∧
+    -(2 : Int) ^ 63 ≤ v.secs ∧ v.secs < (2 : Int) ^ 63 ∧ v.nanos < 2 ^ 64
+
+theorem validatorFields_ok (v : ValidatorRec) (h : VInRange v) : ∀ f ∈ validatorFields v, Fld.ok f := by
+  obtain ⟨h1, h2, h3, h4, h5, h6, h7⟩ := h
+  have e64 : (2:Nat) ^ 64 = 18446744073709551616 := by decide
+  have b1 := intText_length_le v.tokens h4
+  have b2 := encodeTime_length_le v.secs v.nanos h7
+  intro f hf
+  simp only [validatorFields, List.mem_cons, List.not_mem_nil, or_false] at hf
+  rcases hf with rfl | rfl | rfl | rfl | rfl | rfl
+  · exact h1
+  · exact h2
+  · show (if v.jailed then 1 else 0) < 2 ^ 64; split <;> omega
+  · exact h3
+  · show (intText v.tokens).length < 2 ^ 64; omega
+  · show (encodeTime v.secs v.nanos).length < 2 ^ 64; omega
+
+/-- the stored form of a validator decodes back to its fields -/
+theorem validator_roundtrip (v : ValidatorRec) (h : VInRange v) :
+    decodeStruct 1 [true, true, false, false, true, true] (encodeValidator v) = some (validatorFields v) :=
+  struct_roundtrip 1 (validatorFields v) (by simp [validatorFields]) (validatorFields_ok v h)
+
+/-- two validator records with the same stored bytes are the same record -/
+theorem validator_injective (v w : ValidatorRec) (hv : VInRange v) (hw : VInRange w)
+    (e : encodeValidator v = encodeValidator w) : v = w := by
+  have hfs := encodeStruct_injective 1 (validatorFields v) (validatorFields w) rfl (by simp [validatorFields])
+    (validatorFields_ok v hv) (validatorFields_ok w hw) e
+  simp only [validatorFields, List.cons.injEq, Fld.bytes.injEq, Fld.uint.injEq, and_true] at hfs
+  obtain ⟨e1, e2, e3, e4, e5, e6⟩ := hfs
+  have p1 := parseIntText_intText v.tokens hv.2.2.2.1
+  have p2 := parseIntText_intText w.tokens hw.2.2.2.1
+  rw [e5, p2] at p1
+  have et := encodeTime_injective v.secs w.secs v.nanos w.nanos ⟨hv.2.2.2.2.1, hv.2.2.2.2.2.1, hv.2.2.2.2.2.2⟩
+    ⟨hw.2.2.2.2.1, hw.2.2.2.2.2.1, hw.2.2.2.2.2.2⟩ e6
+  obtain ⟨a1, k1, j1, s1, t1, c1, n1⟩ := v
+  obtain ⟨a2, k2, j2, s2, t2, c2, n2⟩ := w
+  simp only at e1 e2 e3 e4 p1 et
+  have ej : j1 = j2 := by
+    cases j1 <;> cases j2 <;> simp at e3 <;> rfl
+  have := Option.some.inj p1
+  obtain ⟨ec, en⟩ := et
+  subst e1 e2 ej e4 this ec en
+  rfl
+
+/-- non-vacuity: a jailed, unstaking validator with 5 tokens maturing at second 7, nanosecond 9 is in range -/
+example : VInRange ⟨[1, 2], [9, 9], true, 2, 5, 7, 9⟩ := by
+  unfold VInRange; simp
+
 end Posmint.Props.C20
